@@ -95,6 +95,24 @@ def truncOp (args : List String) : String :=
     | _, _ => "bad-op"
   | _ => "bad-op"
 
+/-- reads for the transfer machines: `E` (read error) or `id:rcode:records` with records a string over
+    `s<serial>.` / `o.` e.g. `7:0:s5.o.o.s5.` -/
+def parseReads (args : List String) : List Read :=
+  args.map fun a =>
+    if a == "E" then Read.err
+    else match a.splitOn ":" with
+      | [id, rc, recs] =>
+        let rs := (recs.splitOn ".").filterMap fun r =>
+          if r.startsWith "s" then some (XRec.soa ((r.drop 1).toString.toNat?.getD 0))
+          else if r.startsWith "o" then some (XRec.other 0) else none
+        Read.msg (id.toNat?.getD 0) (rc.toNat?.getD 0) rs
+      | _ => Read.err
+
+def showEnvs (es : List Env) : String :=
+  " ".intercalate (es.map fun e => match e with
+    | .data r => s!"data{r.length}" | .errId _ => "errId" | .errRcode _ => "errRcode"
+    | .errSoa _ => "errSoa" | .errRead => "errRead")
+
 /-- one operation: op name and arguments → one canonical output line -/
 def runOp (op : String) (args : List String) : String :=
   match op, args with
@@ -222,6 +240,12 @@ def runOp (op : String) (args : List String) : String :=
     | some q => (match muxMatch (pats.filterMap unhex) q (ds == "1") with
         | some p => hex p | none => "none")
     | none => "bad-op"
+  | "axfr", qid :: reads =>
+    let (d, n) := inAxfr (qid.toNat?.getD 0) (parseReads reads) true
+    s!"{n} {showEnvs d}"
+  | "ixfr", qid :: qser :: reads =>
+    let (d, n) := inIxfr (qid.toNat?.getD 0) (qser.toNat?.getD 0) (parseReads reads) 0 0 true
+    s!"{n} {showEnvs d}"
   | "lab.count", [t] => match unhex t with
     | some s => toString (countLabel s) | _ => "bad-op"
   | "lab.split", [t] => match unhex t with
